@@ -468,11 +468,15 @@ pub fn emit_run(out: &mut Out, run: u64, header: &Value, o: &RunOutcome, values:
     let mut minseen_upto = 0usize;
     let mut minseen = NOOBJ;
     for (i, s) in o.steps.iter().enumerate() {
-        // minimum rank returned by the objective function so far
+        // minimum rank returned by the objective function so far -- and since the previous record (smin)
+        let mut smin = NOOBJ;
         while minseen_upto < s.nvalues {
             let r = p.rank(Some(values[minseen_upto]));
             if minseen == NOOBJ || r < minseen {
                 minseen = r;
+            }
+            if smin == NOOBJ || r < smin {
+                smin = r;
             }
             minseen_upto += 1;
         }
@@ -491,6 +495,7 @@ pub fn emit_run(out: &mut Out, run: u64, header: &Value, o: &RunOutcome, values:
             "evals": s.evals, "iters": s.iters, "calls": s.calls,
             "best": s.best.as_ref().map(|b| p.rank(b.obj)).unwrap_or(NOOBJ),
             "minseen": minseen,
+            "smin": smin,
             "sd": s.scope_depth,
             "xk": header["xk"],
             "x": subst_ranks(&mut p, &s.extra),
